@@ -206,6 +206,10 @@ pub fn run(ctx: &Ctx, rep: &mut Report) {
     for uni in ctx.my_universes(total) {
         let mut rng = ctx.rng_for(uni);
         rep.begin_universe(uni);
+        if uni == 0 {
+            // once per run: the history recorded under the pinned version, continued by the current code
+            crate::legacy::run(rep, "C02");
+        }
         let mut u = U::new();
         let mut ring = KeyRing::default();
         let owner = u.principal();
